@@ -50,7 +50,9 @@ pub fn random_cfg(rng: &mut Rng, profile: &str, sending: bool) -> Value {
     let short = if blk > 8 { 4 + rng.below((blk - 4) as u64) as i64 } else { 5 };
     json!({
         "role": if sending { "send" } else { "recv" },
-        "M": 65536, "W": w, "NB": if sending { nb } else { 0 }, "R": if rng.chance(1, 8) { 2 } else { 1 },
+        "M": 65536, "W": w, "NB": if sending { nb } else { 0 },
+        // duplicate-packets mode sleeps 1 ms of REAL time per extra copy: only for short transfers
+        "R": if profile == "small" && rng.chance(1, 8) { 2 } else { 1 },
         "T": TICKS, "tick_ns": 1_000_000, "chk": sending && rng.chance(1, 3), "clean": rng.chance(3, 4),
         "base0": 0, "lastempty": lastempty, "devfull": false, "blk": blk, "short": short,
         "peer_nb": nb,
@@ -82,6 +84,7 @@ fn drive_sender(sim: &mut Sim, cfg: &Cfg, rng: &mut Rng, net: &Net) {
     let mut consec_fail = 0;
     let mut seen = 0usize; // events of the log already processed
     let mut done_recv = false;
+    let mut gap_acked = false; // the reference receiver reports a gap once, not once per datagram behind it
     let mut steps: u64 = 0;
     let max_steps = 40 * (cfg.nb as u64 + 10);
     if cfg.chk {
@@ -128,6 +131,7 @@ fn drive_sender(sim: &mut Sim, cfg: &Cfg, rng: &mut Rng, net: &Net) {
                 continue;
             }
             if n == expected % m {
+                gap_acked = false;
                 expected += 1;
                 inwin += 1;
                 if short {
@@ -139,7 +143,10 @@ fn drive_sender(sim: &mut Sim, cfg: &Cfg, rng: &mut Rng, net: &Net) {
                     inwin = 0;
                 }
             } else {
-                pending.push_back(((expected - 1) % m) as u16);
+                if !gap_acked {
+                    pending.push_back(((expected - 1) % m) as u16);
+                    gap_acked = true;
+                }
                 inwin = 0;
             }
         }
@@ -311,7 +318,7 @@ pub fn run_random(seed: u64, sid: usize, profile: &str, dir: &Path) -> Vec<Value
     let nb = raw["peer_nb"].as_i64().unwrap();
     let calm = profile != "small";
     let net = Net {
-        drop: if calm { *rng.pick(&[0, 1, 3]) } else { *rng.pick(&[0, 20, 60, 150]) },
+        drop: if calm { *rng.pick(&[0, 0, 1]) } else { *rng.pick(&[0, 20, 60, 150]) },
         dup: if calm { *rng.pick(&[0, 1]) } else { *rng.pick(&[0, 20, 80]) },
         swap: if calm { 0 } else { *rng.pick(&[0, 50, 200]) },
         stray: if calm { *rng.pick(&[0, 1]) } else { *rng.pick(&[0, 30, 100]) },
